@@ -40,6 +40,8 @@ THEOREMS = [
     "HedVerif.C09.expand_twice_counterexample",
     "HedVerif.C09.defexpand_accept_iff",
     "HedVerif.C09.defexpand_order_counterexample",
+    "HedVerif.C09.shrink_twice_keyerror_counterexample",
+    "HedVerif.C09.shrink_total",
     "HedVerif.C09.validate_identity",
     "HedVerif.C09.validate_preserves_expand_shrink",
     "HedVerif.C09.validate_detach_counterexample",
